@@ -155,6 +155,8 @@ func (c *c06) errOf(tag string) error {
 }
 
 // tagOf maps an error coming out of the library back to the tag of the fault that caused it.
+var c06Three = 3
+
 func (c *c06) tagOf(err error) string {
 	if err == nil {
 		return "<nil error>"
@@ -399,6 +401,9 @@ func (n *fx) leafVal() tri {
 	case 5:
 		return triF("lib:empty")
 	case 7, 10:
+		if n.c%3 == 1 {
+			return triF("panic:runtime error: index out of range [3] with length 0")
+		}
 		return triF(fmt.Sprintf("panic:boom%d", n.c))
 	}
 	return triS(n.c)
@@ -703,6 +708,14 @@ func (c *c06) build0(n *fx) fp.Future[int] {
 	case opLeaf:
 		v := n.leafVal()
 		boom := fmt.Sprintf("boom%d", n.c)
+		// one body in three dies with a panic raised by the Go runtime itself (a runtime.Error) instead of panic(string)
+		die := func() {
+			if n.c%3 == 1 {
+				var empty []int
+				_ = empty[c06Three]
+			}
+			panic(boom)
+		}
 		switch n.k {
 		case 0:
 			return future.Successful(n.c)
@@ -716,7 +729,7 @@ func (c *c06) build0(n *fx) fp.Future[int] {
 			return future.Apply(func() int { called(); return n.c }, ctx...)
 		case 7:
 			c.r.Fault("apply-body-panics")
-			return future.Apply(func() int { called(); panic(boom) }, ctx...)
+			return future.Apply(func() int { called(); die(); return 0 }, ctx...)
 		case 8:
 			return future.Apply2(func() (int, error) { called(); return n.c, nil }, ctx...)
 		case 9:
@@ -724,7 +737,7 @@ func (c *c06) build0(n *fx) fp.Future[int] {
 			return future.Apply2(func() (int, error) { called(); return 0, c.errOf(n.tag) }, ctx...)
 		case 10:
 			c.r.Fault("apply2-body-panics")
-			return future.Apply2(func() (int, error) { called(); panic(boom) }, ctx...)
+			return future.Apply2(func() (int, error) { called(); die(); return 0, nil }, ctx...)
 		case 11:
 			return future.Func1(func(a int) (int, error) { called(); return a, nil }, ctx...)(n.c)
 		case 12:
